@@ -26,6 +26,9 @@ DRIVERS = ["pathm"]
 # because the link test was `exists() and is_symlink()`) was repaired in /repo by 039cc0c; its witnesses are corpus
 # cases with "expect": "refused" and a path with such a link that is not refused is an unattributed failure again.
 FIXED_BY = "039cc0c"
+FALLBACK_PREFIXES = [("Path traversal not allowed (..)", "DOTDOT"), ("Invalid path: ", "RESOLVE"),
+                     ("Symlinks in path are not allowed for security reasons", "SYMLINK"), ("Symlink in path not allowed for security reasons", "SYMLINK"),
+                     ("Path resolution failed: ", "RESOLVE"), ("Invalid file extension. Allowed: ", "EXT")]
 # source URIs: a cyclic link followed by '..' makes Path.resolve() (CPython 3.12) return a path whose later components are NOT
 # resolved, so a link inside the base that points outside passes the containment check (found by the sibling/staleness stream)
 URI_FINDING = "C19-source-uri-cycle-dotdot"
@@ -33,7 +36,15 @@ URI_WITNESS = ("sb", "loop.md/../lf.md")
 
 DOC = "===D===\nA::1\n===END===\n"
 NEWDOC = "===D===\nA::2\n===END===\n"
-SECRET = "===SECRET===\nK::\"outside\"\n===END===\n"
+# every file OUTSIDE a sandbox carries this marker; it must never appear in anything a tool returns
+MARKER = "C19MARKER7f3a9c51"
+SECRET = "===SECRET===\nK::\"outside-" + MARKER + "\"\n===END===\n"
+# octave_write modes: content / normalize (neither content nor changes) / changes, each also as dry run (corrections_only)
+W_MODES = {
+    "w": {"content": NEWDOC}, "wd": {"content": NEWDOC, "corrections_only": True},
+    "wn": {}, "wnd": {"corrections_only": True},
+    "wc": {"changes": {"A": 3}}, "wcd": {"changes": {"A": 3}, "corrections_only": True},
+}
 LONG = "A" * 300 + ".md"
 ALLOWED = (".oct.md", ".octave", ".md")
 
@@ -248,11 +259,12 @@ def _one_call(tool, p, env):
     global REC
     import asyncio
     base, cwd, prefixes, file_ops = env["base"], env["cwd"], env["prefixes"], env["file_ops"]
-    before = snapshot(base)
+    before = env.get("snap") or snapshot(base)      # the harness only reads between two calls: reuse the previous `after`
     REC = []
+    resp = None
     try:
-        if tool == "w":
-            r = asyncio.run(env["wt"].execute(target_path=p, content=NEWDOC))
+        if tool in W_MODES:
+            resp = r = asyncio.run(env["wt"].execute(target_path=p, **W_MODES[tool]))
             errs = r.get("errors") or []
             if r.get("status") == "success":
                 oc = "ACCEPT:success"
@@ -261,7 +273,7 @@ def _one_call(tool, p, env):
             else:
                 oc = "ACCEPT:" + (errs[0].get("code", "?") if errs else "?")
         elif tool == "v":
-            r = asyncio.run(env["vt"].execute(file_path=p, schema="META"))
+            resp = r = asyncio.run(env["vt"].execute(file_path=p, schema="META"))
             errs = r.get("errors") or []
             code = errs[0].get("code") if errs and isinstance(errs[0], dict) else None
             if code == "E_PATH":
@@ -273,14 +285,15 @@ def _one_call(tool, p, env):
         elif tool == "vp":      # the bare verdict function used by the CLI and by atomic_write_octave
             ok, msg = file_ops.validate_octave_path(p)
             oc = "ACCEPT:valid" if ok else "E_PATH:" + _msg_reason(msg or "", prefixes["fileops"])
-        elif tool == "cli":     # `octave write FILE --content ...` in-process (same interpreter state as a long-lived embedding)
+        elif tool in ("cli", "clic"):   # `octave write FILE --content ... | --changes ...` in-process (same interpreter state as an embedding)
             from click.testing import CliRunner
-            r = CliRunner().invoke(env["cli"], ["write", p, "--content", NEWDOC])
+            r = CliRunner().invoke(env["cli"], ["write", p] + (["--content", NEWDOC] if tool == "cli" else ["--changes", '{"A": 3}']))
             text = (r.output or "")
             try:
                 text += r.stderr or ""
             except (ValueError, AttributeError):
                 pass
+            resp = text
             if r.exit_code == 0:
                 oc = "ACCEPT:success"
             else:
@@ -292,7 +305,7 @@ def _one_call(tool, p, env):
                             break
                 oc = ("E_PATH:" + rs) if rs != "?" else "ACCEPT:error"
         else:
-            r = file_ops.atomic_write_octave(p, NEWDOC)
+            resp = r = file_ops.atomic_write_octave(p, NEWDOC)
             if r.get("status") == "success":
                 oc = "ACCEPT:success"
             else:
@@ -303,7 +316,12 @@ def _one_call(tool, p, env):
     ops = REC
     REC = None
     after = snapshot(base)
+    env["snap"] = after
     diff = snap_diff(before, after)
+    try:
+        leak = MARKER in (resp if isinstance(resp, str) else json.dumps(resp, default=str, ensure_ascii=False))
+    except Exception:  # noqa
+        leak = MARKER in repr(resp)
     io_ops = [(n, c, a) for (n, c, ok, a, _e) in ops if ok and c in (READ, MUT)]
     tried = [(n, c, a, e) for (n, c, ok, a, e) in ops if (not ok) and c in (READ, MUT)]
     sand = env["sandboxes"]
@@ -321,7 +339,7 @@ def _one_call(tool, p, env):
         "outcome": oc, "diff": diff, "n_meta": sum(1 for o in ops if o[1] == META),
         "io": [(n, c, [x.replace(base, "{B}") for x in a]) for (n, c, a) in io_ops][:8],
         "tried": [(n, c, [x.replace(base, "{B}") for x in a], e) for (n, c, a, e) in tried][:6],
-        "outside": outside,
+        "outside": outside, "leak": leak,
         "out_changed": any(not any(k == sr or k.startswith(sr + "/") for sr in sand_rel) for k, _, _ in diff),
     }
 
@@ -345,8 +363,9 @@ def worker(job):
         build_tree(base, spec)
         cwd = os.path.join(base, cwd_rel)
         os.chdir(cwd)
+        from octave_mcp.cli.main import cli
         env = {"wt": WriteTool(), "vt": ValidateTool(), "file_ops": file_ops, "prefixes": prefixes, "base": base, "cwd": cwd,
-               "sandboxes": [base + "/sb"]}
+               "sandboxes": [base + "/sb"], "cli": cli}
         for praw in paths:
             p = praw.replace("{B}", base)
             rec = {"path": praw}
@@ -364,6 +383,8 @@ def worker(job):
             rec["feat"] = _features(p, cwd)
             rec["calls"] = {}
             for tool in tools:
+                if tool in ("cli", "clic") and "\x00" in p:
+                    continue            # a NUL cannot be passed in argv (click raises ValueError before the command body runs)
                 rec["calls"][tool] = c = _one_call(tool, p, env)
                 diff = c["diff"]
                 if diff:
@@ -371,6 +392,7 @@ def worker(job):
                     wipe_tree(base)
                     build_tree(base, spec)
                     os.chdir(cwd)
+                    env["snap"] = None
             results.append(rec)
         return {"base": base, "variant": variant, "cwd": cwd_rel, "results": results}
     finally:
@@ -622,6 +644,58 @@ def frozen_and_uri(job):
             touched = [a[0] for (nm, c, ok, a, _e) in ops if c in (READ, MUT) and a and a[0] != "<fd>"]
             esc = [t.replace(base, "{B}") for t in touched if os.path.dirname(t) != cache]
             fro.append((ref, oc, okhash, parent_ok, esc))
+        # ---- content cases: one cache directory per case, the file is named after the pinned digest ----
+        froc = []
+        home = base + "/home"
+        std = home + "/.octave/standards"
+        os.makedirs(std)
+        old_home = os.environ.get("HOME")
+        os.environ["HOME"] = home
+        from octave_mcp.mcp.write import WriteTool
+        import asyncio
+        wt = WriteTool()
+        try:
+            for k, (label, P, X) in enumerate(frozen_content_cases(job.get("seed", 0), job.get("n_random", 40))):
+                D = hashlib.sha256(P).hexdigest()
+                ref = "frozen@sha256:" + D
+                cdir = base + "/sb/fz/%d" % k
+                os.makedirs(cdir)
+                fname = D[:16] + ".oct.md"
+                with open(cdir + "/" + fname, "wb") as f:
+                    f.write(X)
+                REC = []
+                try:
+                    p = hydrator.resolve_hermetic_standard(ref, cache_dir=Path(cdir))
+                    oc = str(p).replace(base, "{B}")
+                    with open(p, "rb") as f:
+                        real_hash = hashlib.sha256(f.read()).hexdigest()
+                except hydrator.VocabularyError:
+                    oc, real_hash = "REFUSED", None
+                except BaseException as e:  # noqa
+                    oc, real_hash = "EXC:" + type(e).__name__, None
+                REC = None
+                # octave_write(schema=frozen@sha256:D) with this file in the default cache ~/.octave/standards
+                ow = None
+                if len(X) < 4000 or k % 3 == 0:
+                    with open(std + "/" + fname, "wb") as f:
+                        f.write(X)
+                    tgt = base + "/sb/fzdoc.oct.md"
+                    try:
+                        r = asyncio.run(wt.execute(target_path=tgt, content=PINNED_DOC, schema=ref))
+                        ow = {"status": r.get("status"), "validation_status": r.get("validation_status"), "schema_name": r.get("schema_name")}
+                    except BaseException as e:  # noqa
+                        ow = {"status": "EXC:" + type(e).__name__, "validation_status": None, "schema_name": None}
+                    os.unlink(std + "/" + fname)
+                    if os.path.exists(tgt):
+                        os.unlink(tgt)
+                froc.append({"k": k, "label": label, "digest": D, "file_sha256": hashlib.sha256(X).hexdigest(), "len": len(X), "outcome": oc,
+                             "returned_file_sha256": real_hash, "octave_write": ow,
+                             "pinned_l1": P.decode("latin-1"), "file_l1": X.decode("latin-1")})
+        finally:
+            if old_home is None:
+                os.environ.pop("HOME", None)
+            else:
+                os.environ["HOME"] = old_home
         # decoys beside the cache whose names have the cache directory's name as a proper prefix
         for sib in ("cache-private", "cache2"):
             os.mkdir(base + "/sb/" + sib)
@@ -699,10 +773,61 @@ def frozen_and_uri(job):
             os.unlink(docp)
             clis.append((base_rel, uraw, oc, {"escapes": escapes, "cycle_then_dotdot": cycle_then_dotdot(basep, u),
                                              "outside_reads": outside_reads(ops, root_real)}))
-        return {"base": base, "digests": (dg, dbad), "frozen": fro, "uris": uris, "cli": clis,
+        return {"base": base, "digests": (dg, dbad), "frozen": fro, "frozen_content": froc, "uris": uris, "cli": clis,
                 "oracle": [(good.decode(), dg), (bad.decode(), hashlib.sha256(bad).hexdigest())]}
     finally:
         shutil.rmtree(base, ignore_errors=True)
+
+
+PINNED = ('===PINNED_STD===\nMETA:\n  TYPE::SCHEMA\n  VERSION::"1.0.0"\n---\nPOLICY:\n  VERSION::"1.0"\n  UNKNOWN_FIELDS::REJECT\n---\n'
+          'FIELDS:\n  NAME::["example_name"\u2227REQ]\n===END===\n').encode("utf-8")
+PINNED_DOC = '===DOC===\nPINNED_STD:\n  NAME::"n"\n  EXTRA::1\n===END===\n'
+
+
+def frozen_content_cases(seed, n_random):
+    """[(label, pinned bytes P, bytes X of the cache file named sha256(P)[:16].oct.md)].  `frozen@sha256:sha256(P)` may resolve
+    to that file only if sha256(X) == sha256(P), i.e. X == P: every other X -- in particular P with line endings, BOM, trailing
+    white space or any single byte changed -- must be refused."""
+    import random
+    rng = random.Random(seed)
+    P = PINNED
+    LF, CR, CRLF = b"\n", b"\r", b"\r\n"
+    lines = P.split(LF)[:-1]
+    out = [("identical (control: must resolve)", P, P), ("LF->CRLF on all lines", P, P.replace(LF, CRLF))]
+    for i in sorted({0, 1, len(lines) // 2, len(lines) - 2, len(lines) - 1} | {rng.randrange(len(lines)) for _ in range(3)}):
+        out.append((f"LF->CRLF on line {i} only", P, LF.join(lines[:i] + [lines[i] + CR] + lines[i + 1:]) + LF))
+    out.append(("LF->CRLF on alternate lines", P, b"".join(ln + (CRLF if k % 2 else LF) for k, ln in enumerate(lines))))
+    Pc = P.replace(LF, CRLF)
+    out += [("pinned has CRLF, file identical (control)", Pc, Pc), ("pinned has CRLF, file has LF", Pc, P),
+            ("pinned has CRLF, file has LF on one line", Pc, Pc.replace(CRLF, LF, 1)),
+            ("LF->CR (CR only)", P, P.replace(LF, CR)), ("LF->LF CR", P, P.replace(LF, LF + CR)), ("lone CR appended", P, P + CR),
+            ("lone CR prepended", P, CR + P), ("CR inside a line", P, P.replace(b"REJECT", b"REJ\rECT")), ("CR CR LF on one line", P, P.replace(LF, CR + CRLF, 1)),
+            ("UTF-8 BOM prepended", P, b"\xef\xbb\xbf" + P), ("final newline stripped", P, P[:-1]), ("extra final newline", P, P + LF),
+            ("trailing space on one line", P, P.replace(b"REJECT\n", b"REJECT \n")), ("tab for two spaces", P, P.replace(b"  TYPE", b"\tTYPE")),
+            ("one character changed", P, P.replace(b"REJECT", b"IGNORE")), ("empty file", P, b""), ("NUL appended", P, P + b"\x00")]
+    # content crossing the 8 KiB read-chunk edge of compute_vocabulary_hash: the CR | LF pair straddles / precedes / follows the edge
+    for k in (8191, 8192, 8193, 8194, 16384, 16385):
+        pad = b"// " + b"x" * (k - 4) + LF            # k bytes, LF at offset k-1
+        big = pad + P
+        out += [(f"{k}-byte first line, file identical (control)", big, big),
+                (f"{k}-byte first line ending CRLF in the file (CR at offset {k - 1})", big, pad[:-1] + CRLF + P),
+                (f"{k}-byte first line, CRLF on all lines", big, big.replace(LF, CRLF))]
+    big = (b"// " + b"y" * 60 + LF) * 300 + P         # many lines, several chunk edges
+    out += [("19 KiB many lines identical (control)", big, big), ("19 KiB many lines, CRLF everywhere", big, big.replace(LF, CRLF)),
+            ("19 KiB many lines, CRLF on every 7th line", big, b"".join(ln + (CRLF if k % 7 == 0 else LF) for k, ln in enumerate(big.split(LF)[:-1])))]
+    for _ in range(n_random):
+        x = bytearray(P)
+        pos = rng.randrange(len(x) + 1)
+        kind = rng.choice(("ins", "del", "rep"))
+        b = rng.choice(b"\r\n \t\x00x\xc2")
+        if kind == "ins":
+            x[pos:pos] = bytes([b])
+        elif kind == "del" and pos < len(x):
+            del x[pos]
+        elif pos < len(x):
+            x[pos] = b
+        out.append((f"random single-byte {kind} at {pos}", P, bytes(x)))
+    return out
 
 
 def frozen_refs(dg, dbad):
@@ -817,7 +942,8 @@ def sibling_uris():
 # (positive or negative) shows up here.  The model has no memory: for every step it is evaluated on the tree as it is
 # immediately before that step's call (tree_to_spec of the real directory) and on that step's cwd.
 # ------------------------------------------------------------------------------------------------
-H_TOOLS = ("w", "v", "f", "vp", "cli")
+H_TOOLS = ("w", "wnd", "wc", "wcd", "v", "f", "vp", "cli", "clic")
+H_NEED_FILE = ("v", "wn", "wnd", "wc", "wcd", "clic")
 H_KINDS = ("out-abs", "out-rel", "in-rel", "dangling")
 H_EXTS = (".oct.md", ".md", ".octave")
 
@@ -899,7 +1025,7 @@ def gen_histories(ctx):
     hs = []
 
     def add(tool, kind, name, form, cfgs, chdir=False):
-        need_file = tool == "v" or rng.random() < 0.5
+        need_file = tool in H_NEED_FILE or rng.random() < 0.5
         if chdir:
             # two sandboxes under one root; the same RELATIVE string, the cwd alternates; no tree change between the calls
             real_sb, link_sb = "t1/sb", "t2/sb"
@@ -1050,8 +1176,12 @@ def judge_histories(ctx, hres, have_model):
     return nsteps
 
 
-TOOL_NAME = {"w": "octave_write", "v": "octave_validate", "f": "atomic_write_octave", "vp": "validate_octave_path", "cli": "cli write"}
-MODEL_KEY = {"w": "w", "v": "v", "f": "f", "vp": "f", "cli": "f"}     # which validator configuration of the model a surface uses
+TOOL_NAME = {"w": "octave_write(content)", "wd": "octave_write(content, corrections_only)", "wn": "octave_write(normalize)",
+             "wnd": "octave_write(normalize, corrections_only)", "wc": "octave_write(changes)", "wcd": "octave_write(changes, corrections_only)",
+             "v": "octave_validate(file_path)", "f": "atomic_write_octave", "vp": "validate_octave_path",
+             "cli": "cli write --content", "clic": "cli write --changes"}
+MODEL_KEY = {"w": "w", "wd": "w", "wn": "w", "wnd": "w", "wc": "w", "wcd": "w", "v": "v", "f": "f", "vp": "f", "cli": "f", "clic": "f"}
+MAIN_TOOLS = ("w", "wd", "wn", "wnd", "wc", "wcd", "v", "f", "cli", "clic")     # which validator configuration of the model a surface uses
 
 
 def is_accepted(oc):
@@ -1078,6 +1208,9 @@ def judge_call(ctx, case, tool, c, feat, m, oom):
     refused = not is_accepted(oc)
     changed = bool(c["diff"])
     touched = bool(c["io"])
+    if c.get("leak"):
+        ctx.property_failure(case, "content of a file outside the sandbox (marker string planted in every outside file) appears in what the tool returned")
+        return
     if c["out_changed"] or c["outside"]:
         ctx.property_failure(case, "a path outside the sandbox was created/modified")
         return
@@ -1101,16 +1234,22 @@ def run(ctx):
     have_model = ctx.build_status["drivers"].get("pathm", False)
     sys.path.insert(0, str(VERIF / "harness"))
     from translate import paths_t
-    x = paths_t.extract(SRC)
     RN = {1: "DOTDOT", 2: "SYMLINK", 3: "EXT"}
-    prefixes = {}
-    for who in ("write", "validate", "fileops"):
-        pl = []
-        for c in x["checks"][who]:
-            pl.append((c["msg"], RN[c["kind"]]))
-            if c["exc_msg"]:
-                pl.append((c["exc_msg"], "RESOLVE"))
-        prefixes[who] = pl
+    try:
+        x = paths_t.extract(SRC)
+        prefixes = {}
+        for who in ("write", "validate", "fileops"):
+            pl = []
+            for c in x["checks"][who]:
+                pl.append((c["msg"], RN[c["kind"]]))
+                if c["exc_msg"]:
+                    pl.append((c["exc_msg"], "RESOLVE"))
+            prefixes[who] = pl
+    except Exception as e:  # noqa
+        # the translator fails closed on a source it does not understand (the build already reports that); the search on the
+        # implementation must run all the same: name the refusing check with the message prefixes of the last understood source
+        ctx.extra["message_prefixes"] = f"fallback (translator: {type(e).__name__}: {e})"
+        prefixes = {who: list(FALLBACK_PREFIXES) for who in ("write", "validate", "fileops")}
     mutate = os.environ.get("VERIF_C19_MUTATE") or None
     n_random = ctx.scale(450, 14000)
     paths = gen_paths(ctx, n_random)
@@ -1119,12 +1258,12 @@ def run(ctx):
     for vi, variant in enumerate(variants):
         # relative (cwd = sb, cwd = sb/d) and absolute forms
         rel = paths[vi::len(variants)]
-        jobs.append({"variant": variant, "cwd": "sb", "paths": rel, "tools": ("w", "v", "f"), "prefixes": prefixes, "mutate": mutate})
+        jobs.append({"variant": variant, "cwd": "sb", "paths": rel, "tools": MAIN_TOOLS, "prefixes": prefixes, "mutate": mutate})
         absf = ["{B}/sb/" + p for p in paths[(vi + 1) % 3::len(variants)]]
         absf += ["/" + "{B}/sb/f.md", "/" + "{B}/sb/lf.md", "//" + "{B}/sb/f.md", "{B}//sb///f.md", "{B}/sb/../out/secret.md"]
-        jobs.append({"variant": variant, "cwd": "sb/d", "paths": absf, "tools": ("w", "v", "f"), "prefixes": prefixes, "mutate": mutate})
+        jobs.append({"variant": variant, "cwd": "sb/d", "paths": absf, "tools": MAIN_TOOLS, "prefixes": prefixes, "mutate": mutate})
         jobs.append({"variant": variant, "cwd": "sb/d", "paths": ["../" + p for p in paths[(vi + 2) % 3::7]] + paths[vi::11],
-                     "tools": ("w", "v", "f"), "prefixes": prefixes, "mutate": mutate})
+                     "tools": MAIN_TOOLS, "prefixes": prefixes, "mutate": mutate})
     # corpus: finding witnesses and past failures first
     corpus = []
     cdir = VERIF / "corpus" / "C19"
@@ -1143,7 +1282,7 @@ def run(ctx):
         expect.setdefault((0, "sb", pth), {"path": pth, "tree": 0, "cwd": "sb", "expect": "refused", "fixed": FIXED_BY})
     expect_seen = set()
     for (tv, tc), ps in sorted(groups.items(), reverse=True):      # inserted at the front: tree 0 (dang.md) ends up first
-        jobs.insert(0, {"variant": tv, "cwd": tc, "paths": sorted(set(ps)), "tools": ("w", "v", "f"), "prefixes": prefixes, "mutate": mutate})
+        jobs.insert(0, {"variant": tv, "cwd": tc, "paths": sorted(set(ps)), "tools": MAIN_TOOLS, "prefixes": prefixes, "mutate": mutate})
     # split big jobs for parallelism
     split = []
     for j in jobs:
@@ -1160,7 +1299,8 @@ def run(ctx):
                                                          for k in range(nchunk)]) for x in part]
         rng_names = ["META", "META\n", "DECOY", "DECOY\n", "../secret/DECOY", "/etc/passwd", "DECOY/../../secret/DECOY", "decoy", "A", "SESSION_LOG", "..", "", "D\u00c9COY"]
         se = pool.apply(schema_end_to_end, ({"names": rng_names},))
-        fu = pool.apply(frozen_and_uri, ({"uris": gen_uris(ctx), "cli_uris": [x for x in sibling_uris() if "\x00" not in x[1]]},))
+        fu = pool.apply(frozen_and_uri, ({"uris": gen_uris(ctx), "cli_uris": [x for x in sibling_uris() if "\x00" not in x[1]],
+                                           "seed": ctx.rng.randrange(1 << 30), "n_random": ctx.scale(60, 3000)},))
     ctx.extra["rule"] = (
         "corpus first (witnesses of the finding fixed by 039cc0c -- dangling link as last / as directory component, ENOTDIR link, "
         "41-link chain -- must be refused E_PATH by all three tools with an unchanged tree and no read/mutate attempt); then "
@@ -1168,8 +1308,10 @@ def run(ctx):
         "links; secrets in out/ beside the sandbox), path strings = every last-segment, every (dir-like x last) pair and random "
         "depth-3/4 strings over the segment pool (name, ., .., link-to-dir, link-to-file, dangling, loop, allowed/disallowed/"
         "compound/upper-case extension, empty, trailing slash, NUL, 300-char name), each relative to two working directories and "
-        "absolute, each through WriteTool.execute, ValidateTool.execute and atomic_write_octave in a child process with os.*/open "
-        "interposed and a full snapshot before/after. One evaluation = one tool call or one schema-name/frozen/URI decision. "
+        "absolute, each through WriteTool.execute in all six modes (content / normalize / changes, each also with corrections_only), "
+        "ValidateTool.execute(file_path), atomic_write_octave and CLI `write --content` / `write --changes` in a child process with "
+        "os.*/open interposed and a full snapshot before/after; every file outside the sandbox carries a marker string that must not "
+        "occur in any response. One evaluation = one tool call or one schema-name/frozen/URI decision. "
         "distinct non-trivial = distinct (tree, cwd, path, tool) whose path has a '..', link, bad extension, NUL, long or empty "
         "segment, plus accepted schema names and resolved frozen/URI cases")
     os_checked = os_bad = 0
@@ -1305,6 +1447,43 @@ def run(ctx):
             mm = "REFUSED" if m == "NONE" else dec_path(m).replace(base, "{B}")
             if mm != oc:
                 ctx.correspondence_failure(dict(case, model=mm), "resolve_hermetic_standard differs from the model")
+    # ---- frozen content cases: H(bytes of the returned file) = digest, exactly as in frozen_confined ----
+    fc = fu["frozen_content"]
+    fmod = None
+    if have_model:
+        lines = []
+        for cse in fc:
+            cpath = segs + ["sb", "fz", str(cse["k"])]
+            ents = ["fs"] + [enc_path(cpath[:i]) + "|d|-" for i in range(1, len(cpath) + 1)]
+            ents.append(enc_path(cpath + [cse["digest"][:16] + ".oct.md"]) + "|f|" + enc_str(cse["file_l1"]))
+            lines.append(" ".join(ents))
+            lines.append("rfrozen " + enc_path(cpath) + " " + enc_str("frozen@sha256:" + cse["digest"]) + " "
+                         + enc_str(cse["file_l1"]) + "=" + enc_str(cse["file_sha256"]))
+        fmod = run_driver("pathm", lines)[1::2]
+    for j, cse in enumerate(fc):
+        ctx.count(2 if cse["octave_write"] else 1)
+        same = cse["file_sha256"] == cse["digest"]
+        oc = cse["outcome"]
+        ctx.hist("frozen_content", ("bytes hash to digest" if same else "bytes do NOT hash to digest") + " -> " + ("resolved" if oc.startswith("{B}") else oc))
+        ctx.nontrivial(("frozen-content", cse["label"], cse["file_sha256"]))
+        case = {"surface": "resolve_hermetic_standard(ref, cache_dir)", "label": cse["label"], "frozen_ref": "frozen@sha256:" + cse["digest"],
+                "cache_file": cse["digest"][:16] + ".oct.md", "cache_file_bytes_latin1": cse["file_l1"] if cse["len"] < 3000 else cse["file_l1"][:200] + "...(%d bytes; see label)" % cse["len"],
+                "pinned_bytes_latin1": cse["pinned_l1"] if cse["len"] < 3000 else "(see label)", "sha256_of_cache_file_bytes": cse["file_sha256"],
+                "outcome": oc, "sha256_of_returned_file_bytes": cse["returned_file_sha256"]}
+        if oc.startswith("{B}") and cse["returned_file_sha256"] != cse["digest"]:
+            ctx.property_failure(case, "frozen@sha256 reference resolved to a cache file whose BYTES do not hash to the digest")
+        ow = cse["octave_write"]
+        if ow is not None:
+            ctx.hist("frozen_octave_write", ("match" if same else "mismatch") + " -> " + str(ow["validation_status"]))
+            if not same and ow["validation_status"] != "UNVALIDATED":
+                ctx.property_failure(dict(case, surface="octave_write(schema=frozen@sha256:D), cache ~/.octave/standards", octave_write=ow),
+                                     "octave_write validated against a frozen standard whose cached bytes do not hash to the pinned digest")
+            if same and ow["validation_status"] == "UNVALIDATED":
+                ctx.correspondence_failure(dict(case, octave_write=ow), "octave_write did not use a frozen standard whose cached bytes hash to the digest")
+        if fmod is not None:
+            mm = "REFUSED" if fmod[j] == "NONE" else dec_path(fmod[j]).replace(base, "{B}")
+            if mm != oc:
+                ctx.correspondence_failure(dict(case, model=mm), "resolve_hermetic_standard differs from the model (resolve_frozen with H = SHA-256 of the file's bytes)")
     off = len(fu["frozen"])
     def sib_class(u):
         cs = u.replace("{B}", "").split("/")
@@ -1367,6 +1546,11 @@ def run(ctx):
             ctx.property_failure(case, "octave hydrate --check opened a file outside --project-root", finding=fid)
         elif info["escapes"] and ("FRESH:" in oc or "STALE:" in oc):
             ctx.property_failure(case, "octave hydrate --check hashed a SOURCE_URI that resolves outside --project-root", finding=fid)
+    ctx.extra["frozen_rule"] = (
+        "26 reference strings against one cache; plus content cases (pinned bytes P, cache file X named sha256(P)[:16].oct.md, one cache "
+        "dir per case): X = P, CRLF/CR/BOM/newline/white-space variants, first lines crossing the 8 KiB read edge, random single-byte "
+        "edits; demanded: sha256(real bytes of the file resolve_hermetic_standard returns) == digest (frozen_confined: H (bytes p) = "
+        "digest), model agreement, and octave_write(schema=frozen@sha256:D) stays UNVALIDATED when sha256(X) != D")
     ctx.extra["source_uri_rule"] = (
         "two base directories (sb, sb/d); beside each, sibling directories whose names have the base name as a proper prefix "
         "(<base>-private, <base>2, <base>_old, <base>.bak) with readable .oct.md files, reached via '..', via absolute paths and via "
